@@ -28,3 +28,21 @@ PROPS["C12"] = {
     "note": "Assumes CPython dict/list/sorted (stable) semantics and that listeners are registered only through add_listener "
             "(who-may-write is part of R1: every write site in the class is enumerated). Does not execute dispatches.",
 }
+
+SOURCE_COMMITS.append("2c59a26")  # fix: gate ANSI section writes by the caller's flags (C10)
+
+PROPS["C10"] = {
+    "claimed": True,
+    "technique": "static analysis: guard dominance on the CFG (every stream write under the gate), flags-forwarding dataflow over the computed write family, decision-table extraction of the gate",
+    "text": (
+        "Decides the gating mechanism for every output class in the package: each resolved OutputStream.write call is dominated "
+        "by the true edge of _may_write(<the method's own flags>) and nobody outside the Output classes writes a stream (GUARD + "
+        "who-may-call); every member of the computed write family (methods of Output/IO classes that reach a stream write) that "
+        "hands its text to another writing or recording method forwards its flags or is itself gated there (flags dataflow); the "
+        "gate's path table is extracted and compared with: quiet refuses first, levels tested ascending, each with >= the same "
+        "level, fallthrough True, None normalised (TABLE). A write method added later is covered because the family is computed, "
+        "not listed."
+    ),
+    "note": "Decides the in-package mechanism, not the bytes: assumes user code writes through the Output/IO API. "
+            "Level constants are read from clikit.api.io.flags on each run.",
+}
